@@ -326,7 +326,10 @@ def oracle_case(case, observe=None):
     lhs, rhs = inner(ey, efx, w), inner(eby, ex, w)
     if not abs(lhs - rhs) <= TOL * max(1.0, abs(lhs), abs(rhs)):
         bad.append(('adjoint ' + tag, '<y, forward x> = %r but <backward y, x> = %r' % (lhs, rhs)))
-    obs = {'grid': grid, 'prop': prop, 'reg': reg, 'near_boundary': near_boundary, 'ex': ex, 'efx': efx}
+    obs = {'grid': grid, 'prop': prop, 'reg': reg, 'near_boundary': near_boundary, 'ex': ex, 'efx': efx, 'ey': ey, 'eby': eby}
+    if case['stokes'] is not None and ex.ndim == 3:
+        # Stokes-I images of the input and of the propagated wavefront (for the `stokesI` correspondence)
+        obs['stokes_I'] = [(ex, np.asarray(make_wavefront(case, x.copy()).I, dtype=float)), (efx, np.asarray(fx.I, dtype=float))]
     if reg['stated'] and not near_boundary:
         evan = kind == 'angular' and reg['minrad'] < 0
         pre = 'angular-evanescent-corner ' if evan else ''
@@ -386,13 +389,24 @@ def setup_line(case):
 def model_requests(case, obs, rng, head=None):
     M = obs['reg']['M']
     lines = list(head) if head is not None else [setup_line(case)]
-    pix = [(0, 0), (M[0] - 1, M[1] - 1), (M[0] // 2, M[1] // 2), (0, M[1] - 1)]
+    lines.append('C04 emb')
+    # FFT-layout bins (qx, qy) of the array the filter multiplies with: DC, Nyquist corner, the bin next to it, ...
+    pix = [(0, 0), (M[0] - 1, M[1] - 1), (M[0] // 2, M[1] // 2), (0, M[1] - 1), ((M[0] + 1) // 2, (M[1] + 1) // 2)]
     for _ in range(4):
         pix.append((int(rng.integers(0, M[0])), int(rng.integers(0, M[1]))))
     pix = sorted(set(pix))
-    for ix, iy in pix:
-        lines.append('C04 tf %d %d' % (ix, iy))
+    for qx, qy in pix:
+        lines.append('C04 tfq %d %d' % (qx, qy))
+    # Stokes-I of a Jones-matrix wavefront at a few pixels, input and output
+    obs['stokes_req'] = []
+    for E, img in obs.get('stokes_I', []):
+        for k in sorted(set([0, E.shape[-1] - 1, int(rng.integers(0, E.shape[-1]))])):
+            comps = [E[0, 0, k], E[0, 1, k], E[1, 0, k], E[1, 1, k]]
+            vals = [v for c in comps for v in (float(c.real), float(c.imag))]
+            lines.append('C04 stokesI [%s] [%s]' % (','.join(rat(float(v)) for v in case['stokes']), ','.join(rat(v) for v in vals)))
+            obs['stokes_req'].append(float(img[k]))
     # impulse-response branch: the whole sampled impulse response (small internal grids only)
+    obs['n_fixed'] = len(lines) - (len(head) if head is not None else 1)     # emb + tfq + stokesI answers
     if obs['reg']['ir'] and case['z'] != 0 and M[0] * M[1] * sxy(case)[0] * sxy(case)[1] <= IR_BUDGET:
         for jy in range(M[1]):
             lines.append('C04 ir %d' % jy)
@@ -476,15 +490,31 @@ def compare_model(ctx, case, obs, pix, answers):
     if tf is None:
         raise MachineryError('FourierFilter has no cached transfer function after forward()')
     D = np.fft.fftshift(np.asarray(tf))          # centred layout (My, Mx)
+    raw = np.asarray(tf)                         # FFT layout, as multiplied
     worst = 0.0
-    ir_rows = answers[1 + len(pix):]
-    for (ix, iy), resp in zip(pix, answers[1:1 + len(pix)]):
+    kemb = _kv(answers[1])
+    tf_answers = answers[2:2 + len(pix)]
+    st_answers = answers[2 + len(pix):1 + obs['n_fixed']]
+    ir_rows = answers[1 + obs['n_fixed']:]
+    for (qx, qy), resp in zip(pix, tf_answers):
         ctx.traces_validated += 1
-        want = model_tf_value(case, _kv(resp))
+        kq = _kv(resp)
+        at = [int(v) for v in parse_rat_list(kq['at'])]
+        if at != [(qx + model_M[0] // 2) % model_M[0], (qy + model_M[1] // 2) % model_M[1]]:
+            ctx.disagree('C04 ifftshift index', {'case': case, 'bin': [qx, qy], 'model': at})
+        want = model_tf_value(case, kq)
         if want is None:
             ctx.count('skipped:pixel-on-evanescent-boundary')
             continue
-        worst = max(worst, abs(complex(D[iy, ix]) - want) / max(1.0, abs(want)))
+        worst = max(worst, abs(complex(raw[qy, qx]) - want) / max(1.0, abs(want)))
+    # Stokes-I polynomial of the model against Wavefront.I
+    for resp, real_I in zip(st_answers, obs.get('stokes_req', [])):
+        ks = _kv(resp)
+        ctx.traces_validated += 1
+        ctx.count('stokesI-compared' + ('' if ks['phys'] == '1' else '(unphysical Stokes vector)'))
+        mi = float(parse_rat(ks['I']))
+        if not abs(mi - real_I) <= TOL * max(1.0, abs(mi)):
+            ctx.disagree('C04 Stokes I', {'case': case, 'impl': real_I, 'model': mi})
     matches = worst <= TOL
     if obs['near_boundary']:
         ctx.boundary_skipped += 1
@@ -505,27 +535,40 @@ def compare_model(ctx, case, obs, pix, answers):
         # (a discrete chirp can be its own transform, e.g. lambda |z| = M delta^2: recorded, not decided, on large grids)
         ctx.count('ir-branch-coincides-with-sampled-tf(large grid, not recomputed)')
     ctx.count('branch:' + kv['branch'])
-    # end to end: pad -> fftn -> multiply -> ifftn -> crop, recomputed with the model's sizes and cut-out
+    # the cut-out embedding (`cutoutEmb` = embRows x embCols) against the slices the real filter writes to / reads from
     nx, ny = case['dims']
-    ex = obs['ex']
-    ts = ex.shape[:-1]
-    arr = ex.reshape(ts + (ny, nx))
-    if kv['cut'] == 'none':
-        padded = arr
-    else:
-        y0, y1, x0, x1 = (int(v) for v in kv['cut'].split(':'))
-        padded = np.zeros(ts + (model_M[1], model_M[0]), dtype=complex)
-        padded[..., y0:y1, x0:x1] = arr
-    out = np.fft.ifft2(np.fft.fft2(padded, axes=(-2, -1)) * np.asarray(tf), axes=(-2, -1))
-    if kv['cut'] != 'none':
-        out = out[..., y0:y1, x0:x1]
-    out = out.reshape(ts + (nx * ny,))
+    rows = [int(v) for v in parse_rat_list(kemb['rows'])]
+    cols = [int(v) for v in parse_rat_list(kemb['cols'])]
+    idx = np.arange(model_M[0] * model_M[1]).reshape(model_M[1], model_M[0])
+    real_emb = idx if ff.cutout is None else idx[ff.cutout]
     ctx.traces_validated += 1
-    dev = float(np.abs(out - obs['efx']).max())
-    if not dev <= TOL * max(1.0, float(np.abs(out).max())):
-        ctx.disagree('C04 filter pipeline', {'case': case, 'max_dev': dev,
-                     'detail': 'forward() differs from crop(ifftn(D * fftn(pad(x)))) with the model cut-out'})
+    if kemb['padok'] != '1' or len(rows) != ny or len(cols) != nx or real_emb.shape != (ny, nx) \
+            or not np.array_equal(real_emb, idx[np.ix_(rows, cols)]):
+        ctx.disagree('C04 cut-out embedding', {'case': case, 'model_rows': rows, 'model_cols': cols, 'impl_cutout': cut})
+        return
+    ctx.count('embedding:' + ('identity' if ff.cutout is None else 'padded'))
+    # end to end: pad -> fftn -> multiply -> ifftn -> crop, recomputed with the model's sizes and embedding,
+    # forward (D) and backward (conj D)
+    sel = np.ix_(rows, cols)
 
+    def pipeline(e_in, d):
+        ts = e_in.shape[:-1]
+        arr = e_in.reshape(ts + (ny, nx))
+        padded = np.zeros(ts + (model_M[1], model_M[0]), dtype=complex)
+        padded[(Ellipsis,) + sel] = arr
+        out = np.fft.ifft2(np.fft.fft2(padded, axes=(-2, -1)) * d, axes=(-2, -1))
+        return out[(Ellipsis,) + sel].reshape(ts + (nx * ny,))
+
+    for name, e_in, e_out, d in (('forward', obs['ex'], obs['efx'], raw), ('backward', obs.get('ey'), obs.get('eby'), np.conj(raw))):
+        if e_in is None:
+            continue
+        out = pipeline(e_in, d)
+        ctx.traces_validated += 1
+        ctx.count('pipeline-recomputed:' + name)
+        dev = float(np.abs(out - e_out).max())
+        if not dev <= TOL * max(1.0, float(np.abs(out).max())):
+            ctx.disagree('C04 filter pipeline', {'case': case, 'direction': name, 'max_dev': dev,
+                         'detail': '%s() differs from crop(ifftn(%s * fftn(pad(x)))) with the model embedding' % (name, 'D' if name == 'forward' else 'conj D')})
 
 
 # ---------------------------------------------------------------------------------------------
@@ -695,6 +738,11 @@ def oracle_session(sess, observe=None):
         reg = exact_regime(cur)
         near = abs(reg['slack']) <= Fraction(1, 10 ** 7) * max(Fraction(cur['delta'][0]), Fraction(cur['delta'][1]))
         observe.update({'grid': grid, 'prop': prop, 'reg': reg, 'near_boundary': near, 'ex': last_fwd[0], 'efx': last_fwd[1], 'cur': cur})
+        try:
+            yb = _typed_field(cur, grid, 1, np.complex128)
+            observe.update({'ey': wf_field(cur, yb), 'eby': np.asarray(prop.backward(make_wavefront(cur, yb.copy())).electric_field)})
+        except Exception:
+            pass
     return bad
 
 
@@ -733,6 +781,167 @@ def session_head(sess):
             lines.append('C04 set %s %s' % (op['name'], _vtext(v, integer=(op['name'] == 'num_oversampling'))))
     lines.append('C04 info')
     return lines
+
+# ---------------------------------------------------------------------------------------------
+# FourierFilter with a matrix-valued (tensor) transfer function: forward = field_dot(D, .), backward = field_dot(D^H, .)
+
+def gen_mcase(rng):
+    nx, ny = DIMS[int(rng.integers(0, 15))]
+    q = [1.0, 2.0, 1.5, [1.0, 2.0], [2.0, 1.0], 3.0][int(rng.integers(0, 6))]
+    return {'dims': [nx, ny], 'delta': [0.25, [0.25, 0.5][int(rng.integers(0, 2))]], 'q': q, 'n': [2, 2, 2, 3][int(rng.integers(0, 4))],
+            'field': ['vector', 'vector', 'matrix'][int(rng.integers(0, 3))], 'tfkind': ['generator', 'field'][int(rng.integers(0, 2))],
+            'fseed': int(rng.integers(0, 2 ** 31))}
+
+
+def directed_mcases():
+    return [{'dims': [4, 6], 'delta': [0.25, 0.25], 'q': q, 'n': n, 'field': f, 'tfkind': t, 'fseed': 11}
+            for q in (1.0, 2.0, [1.0, 2.0]) for n, f in ((2, 'vector'), (2, 'matrix'), (3, 'vector')) for t in ('generator', 'field')]
+
+
+def _dyadic_complex(rng, shape, bits=2):
+    return rng.integers(-8, 9, size=shape) / float(1 << bits) + 1j * rng.integers(-8, 9, size=shape) / float(1 << bits)
+
+
+def _mq(mc):
+    return np.array(mc['q'], dtype=float) if isinstance(mc['q'], list) else mc['q']
+
+
+def build_mfilter(mc, transform=None):
+    """(grid, FourierFilter, D) with D the (n, n, My*Mx) dyadic transfer-function samples on the internal grid."""
+    import hcipy
+    grid = hcipy.CartesianGrid(hcipy.RegularCoords(np.array(mc['delta'], dtype=float), np.array(mc['dims']),
+                                                   np.array([-d * (k - 1) / 2 for d, k in zip(mc['delta'], mc['dims'])])))
+    n = mc['n']
+    holder = {}
+
+    def tfgen(internal_grid):
+        D = _dyadic_complex(np.random.default_rng([mc['fseed'], 7]), (n, n, internal_grid.size))
+        holder['D'] = D
+        return hcipy.Field(D if transform is None else transform(D), internal_grid)
+    if mc['tfkind'] == 'generator':
+        ff = hcipy.FourierFilter(grid, tfgen, _mq(mc))
+    else:
+        probe = hcipy.FourierFilter(grid, tfgen, _mq(mc))
+        ff = hcipy.FourierFilter(grid, tfgen(probe.internal_grid), _mq(mc))
+    return grid, ff, holder
+
+
+def _mfield(mc, grid, salt):
+    import hcipy
+    n = mc['n']
+    ts = (n,) if mc['field'] == 'vector' else (n, n)
+    return hcipy.Field(_dyadic_complex(np.random.default_rng([mc['fseed'], salt]), ts + (grid.size,)), grid)
+
+
+def oracle_mcase(mc, observe=None):
+    """<y, forward x> = <backward y, x>, linearity, and backward = forward of a fresh filter built from D^H."""
+    import hcipy
+    bad = []
+    grid, ff, holder = build_mfilter(mc)
+    x, y = _mfield(mc, grid, 0), _mfield(mc, grid, 1)
+    tag = 'matrix-tf/%s' % mc['field']
+    try:
+        fx, fy, by = ff.forward(x.copy()), ff.forward(y.copy()), ff.backward(y.copy())
+        a, b = 0.5 - 1.25j, -2.0 + 0.75j
+        comb = ff.forward(hcipy.Field(a * np.asarray(x) + b * np.asarray(y), grid))
+        _, ffh, _ = build_mfilter(mc, transform=lambda D: np.conj(np.swapaxes(D, 0, 1)))
+        hy = ffh.forward(y.copy())
+    except Exception as e:
+        return [('raises %s %s' % (type(e).__name__, tag), 'FourierFilter with a tensor transfer function raised %s: %s' % (type(e).__name__, e))]
+    fx, fy, by, comb, hy = (np.asarray(v) for v in (fx, fy, by, comb, hy))
+    scale = max(1.0, float(np.abs(fx).max()), float(np.abs(fy).max()))
+    lin = float(np.abs(comb - (a * fx + b * fy)).max())
+    if not lin <= TOL * 4 * scale:
+        bad.append(('linear ' + tag, 'forward(a x + b y) differs from a forward(x) + b forward(y) by %.3g' % lin))
+    lhs, rhs = inner(np.asarray(y), fx, 1.0), inner(by, np.asarray(x), 1.0)
+    if not abs(lhs - rhs) <= TOL * max(1.0, abs(lhs), abs(rhs)):
+        bad.append(('adjoint ' + tag, '<y, forward x> = %r but <backward y, x> = %r (matrix-valued transfer function)' % (lhs, rhs)))
+    d = float(np.abs(by - hy).max())
+    if not d <= TOL * max(1.0, float(np.abs(hy).max())):
+        bad.append(('backward-is-conjugate-transpose ' + tag, 'backward(y) differs from forward(y) of a filter built from the conjugate transpose by %.3g' % d))
+    if observe is not None:
+        observe.update({'grid': grid, 'ff': ff, 'D': holder['D'], 'x': np.asarray(x), 'y': np.asarray(y), 'fx': fx, 'by': by})
+    return bad
+
+
+def mcase_requests(mc, obs, rng):
+    import hcipy
+    ff, D, n = obs['ff'], obs['D'], mc['n']
+    lines = ['C04 setup fresnel %d %d %s %s 1/16 1/2 1 %s 1' % (mc['dims'][0], mc['dims'][1], rat(mc['delta'][0]), rat(mc['delta'][1]), _vtext(mc['q'])),
+             'C04 emb']
+    # field_dot(tf, v) and field_dot(field_conjugate_transpose(tf), v) of the real code at three samples
+    ig = ff.internal_grid
+    v = _dyadic_complex(np.random.default_rng([mc['fseed'], 9]), (n, ig.size))
+    tf = hcipy.Field(D, ig)
+    r0 = np.asarray(hcipy.field_dot(tf, hcipy.Field(v, ig)))
+    r1 = np.asarray(hcipy.field_dot(hcipy.field_conjugate_transpose(tf), hcipy.Field(v, ig)))
+    obs['mdot'] = []
+    for k in sorted(set([0, ig.size - 1, int(rng.integers(0, ig.size))])):
+        for adj, r in ((0, r0), (1, r1)):
+            Dk = D[:, :, k].reshape(-1)
+            lines.append('C04 mdot %d %d [%s] [%s] [%s] [%s]' % (n, adj, ','.join(rat(float(t.real)) for t in Dk), ','.join(rat(float(t.imag)) for t in Dk),
+                                                                  ','.join(rat(float(t.real)) for t in v[:, k]), ','.join(rat(float(t.imag)) for t in v[:, k])))
+            obs['mdot'].append(r[:, k])
+    return lines
+
+
+def compare_mcase(ctx, mc, obs, answers):
+    ff, D, n = obs['ff'], obs['D'], mc['n']
+    kv, kemb = _kv(answers[0]), _kv(answers[1])
+    M = [int(v) for v in parse_rat_list(kv['M'])]
+    ctx.traces_validated += 1
+    if [int(d) for d in ff.internal_grid.dims] != M:
+        ctx.disagree('C04 padded size', {'mcase': mc, 'impl': [int(d) for d in ff.internal_grid.dims], 'model': M})
+        return
+    for resp, real in zip(answers[2:], obs['mdot']):
+        k = _kv(resp)
+        got = np.array([float(a) + 1j * float(b) for a, b in zip(parse_rat_list(k['re']), parse_rat_list(k['im']))])
+        ctx.traces_validated += 1
+        if got.shape != real.shape or not np.abs(got - real).max() <= TOL * max(1.0, float(np.abs(real).max())):
+            ctx.disagree('C04 matrix transfer function product', {'mcase': mc, 'impl': [str(c) for c in real], 'model': [str(c) for c in got]})
+    nx, ny = mc['dims']
+    rows = [int(v) for v in parse_rat_list(kemb['rows'])]
+    cols = [int(v) for v in parse_rat_list(kemb['cols'])]
+    sel = np.ix_(rows, cols)
+    Dsh = np.fft.ifftshift(D.reshape(n, n, M[1], M[0]), axes=(-2, -1))
+    sub = 'ij...,j...->i...' if mc['field'] == 'vector' else 'ij...,jk...->ik...'
+
+    def pipeline(e_in, d):
+        ts = e_in.shape[:-1]
+        padded = np.zeros(ts + (M[1], M[0]), dtype=complex)
+        padded[(Ellipsis,) + sel] = e_in.reshape(ts + (ny, nx))
+        out = np.fft.ifft2(np.einsum(sub, d, np.fft.fft2(padded, axes=(-2, -1))), axes=(-2, -1))
+        return out[(Ellipsis,) + sel].reshape(ts + (nx * ny,))
+
+    for name, e_in, e_out, d in (('forward', obs['x'], obs['fx'], Dsh), ('backward', obs['y'], obs['by'], np.conj(np.swapaxes(Dsh, 0, 1)))):
+        out = pipeline(e_in, d)
+        ctx.traces_validated += 1
+        ctx.count('matrix-tf pipeline-recomputed:' + name)
+        dev = float(np.abs(out - e_out).max())
+        if not dev <= TOL * max(1.0, float(np.abs(out).max())):
+            ctx.disagree('C04 matrix filter pipeline', {'mcase': mc, 'direction': name, 'max_dev': dev})
+
+
+def run_mcases(ctx):
+    n = ctx.scale(160, 2500)
+    mcases = directed_mcases() + [gen_mcase(ctx.rng) for _ in range(n)]
+    lines, kept = [], []
+    for mc in mcases:
+        obs = {}
+        for key, what in oracle_mcase(mc, observe=obs):
+            ctx.violation(key, what, {'mcase': mc})
+        ctx.count('matrix-tf:%s n=%d %s' % (mc['field'], mc['n'], mc['tfkind']))
+        ctx.count('matrix-tf padding:' + ('none' if mc['q'] == 1.0 else ('per-axis' if isinstance(mc['q'], list) else 'both axes')))
+        ctx.case(None, nontrivial_key=('mcase', tuple(mc['dims']), _vkey(mc['q']), mc['n'], mc['field'], mc['tfkind']))
+        if 'ff' not in obs:
+            continue
+        req = mcase_requests(mc, obs, ctx.rng)
+        kept.append((mc, obs, len(lines), len(req)))
+        lines += req
+    answers = ctx.model(lines)
+    for mc, obs, a, k in kept:
+        compare_mcase(ctx, mc, obs, answers[a:a + k])
+
 
 # ---------------------------------------------------------------------------------------------
 
@@ -818,6 +1027,7 @@ def run(ctx):
         s_answers = ctx.model(s_lines)
         for cur, obs, pix, a, k, nh in s_kept:
             compare_model(ctx, cur, obs, pix, s_answers[a + nh - 1:a + k])
+        run_mcases(ctx)
     if ctx.boundary_skipped > 0.10 * max(1, ctx.evaluations):
         raise MachineryError('too many boundary-skipped cases (%d of %d)' % (ctx.boundary_skipped, ctx.evaluations))
 
@@ -825,7 +1035,7 @@ def run(ctx):
 def replay(ctx, case):
     with warnings.catch_warnings():
         warnings.simplefilter('ignore')
-        bad = oracle_session(case['session']) if 'session' in case else oracle_case(case)
+        bad = oracle_session(case['session']) if 'session' in case else (oracle_mcase(case['mcase']) if 'mcase' in case else oracle_case(case))
     for key, what in bad:
         print('  fails:', key, '-', what)
     return not bad
